@@ -144,11 +144,10 @@ func (c CounterStyle) renderValue(counterValue int, counter *CounterStyleDescrip
 		extends, system, fixedNumber = counter.System.Extends, counter.System.System, counter.System.Number
 	}
 
-	// Avoid circular fallbacks
+	// Circular fallbacks are avoided by resolveCounter; previousTypes holds names of
+	// counter styles, never the keyword of a system.
 	if previousTypes == nil {
 		previousTypes = utils.NewSet()
-	} else if previousTypes.Has(system) {
-		return c.RenderValue(counterValue, "decimal")
 	}
 
 	// Handle extends
